@@ -27,7 +27,15 @@ def base_case(draw, rows, dtype="complex", short_nfft=False):
     x = est.sanitize(row, x)
     N = x["n"]
     p = draw(est.params(row, N, dtype == "complex"))
-    if short_nfft and draw(st.integers(0, 4)) == 4:
+    biglag = False
+    if row == "pcorrelogram" and draw(st.integers(0, 3)) == 3:
+        # every documented lag (< N), also those whose 2 lag + 1 values do not fit in NFFT points: the estimate is then an
+        # aliased one, but a modulation still rotates it and a conjugation still mirrors it
+        p["lag"] = draw(st.integers((N - 1) // 2 + 1, N - 1))
+        biglag = True
+    if biglag:
+        nfft = draw(gen.nfft_at_least(N, hi_mult=2))
+    elif short_nfft and draw(st.integers(0, 4)) == 4:
         # NFFT shorter than the record (the FFT-based rows then use the first NFFT samples; the parametric rows
         # only a coarser grid): modulation by m/NFFT and conjugation still rotate / mirror the estimate
         lo = max(8, est.min_nfft(row, N, p) if not (row == "Periodogram" or row.startswith("mtm_")) else 8)
@@ -136,3 +144,43 @@ def c04_reverse(ctx, case):
     ctx.cls(row, "complex" if np.iscomplexobj(x) else "real", "odd" if nfft % 2 else "even")
     ctx.nontrivial(two_distinct(x) and not np.allclose(x, np.conj(x[::-1])))
     est.compare_psd(ctx, row, b, np.real(a), "%s: estimate changes under conjugated time reversal" % row, sig=sig)
+
+
+# ---- sharp spectral lines: the same clauses where the evaluation of the spectrum is ill-conditioned ----------------------
+SHARP_ROWS = ("pcovar", "pmodcovar", "pburg", "pyule", "pminvar")
+
+
+@st.composite
+def sharp_case(draw):
+    row = draw(st.sampled_from(SHARP_ROWS))
+    x, nfft, K, noise = draw(gen.sharp_lines(100, 160, [128, 160, 200, 256, 320], [1e-4, 3e-4, 1e-3], cplx=False))
+    nfft = max(nfft, x["n"]) if draw(st.booleans()) else nfft * 2
+    return {"row": row, "x": x, "nfft": nfft, "order": 2 * K + (1 if row == "pminvar" else 0), "noise": noise}
+
+
+@sub("C04.sharp", strategy=sharp_case(), quick=300, thorough=8000,
+     doc="real high-SNR records (on-grid sinusoids, noise 1e-4..1e-3, order = 2 x tones): one-sided == 2 x first half of the "
+         "two-sided estimate of the same samples declared complex, and time reversal, within 1e-13/noise^2 of the peak "
+         "(unchanged code: <= 2.2e-15/noise^2 over 4000 records)")
+def c04_sharp(ctx, case):
+    row, nfft = case["row"], case["nfft"]
+    x = gen.realise(case["x"]).astype(float)
+    p = {"order": case["order"]}
+    sig = {"row": row, "clause": "sharp"}
+    ctx.sig_on_exception = sig
+    tol = 1e-13 / case["noise"] ** 2
+    one = np.real(est.psd_of(est.build(row, x, p, NFFT=nfft)))
+    two = np.real(est.psd_of(est.build(row, x.astype(complex), p, NFFT=nfft)))
+    L = len(one)
+    ctx.cls(row, "noise=%g" % case["noise"], "tones=%d" % (case["order"] // 2))
+    ctx.nontrivial(True)
+    peak = float(np.max(np.abs(one)))
+    ctx.check(np.all(np.isfinite(one)) and peak > 0, "%s: estimate of a high-SNR record is not finite" % row, sig=sig)
+    e1 = float(np.max(np.abs(one - 2.0 * two[:L]))) / peak
+    ctx.check(e1 <= tol, "%s: one-sided estimate differs from 2 x first half of the two-sided one by %.3g of the peak "
+              "(allowed %.3g = 1e-13/noise^2, noise %g)" % (row, e1, tol, case["noise"]), sig=sig)
+    if row in est.TIME_REVERSAL:
+        rev = np.real(est.psd_of(est.build(row, x[::-1].copy(), p, NFFT=nfft)))
+        e2 = float(np.max(np.abs(one - rev))) / peak
+        ctx.check(e2 <= tol, "%s: estimate of the time-reversed record differs by %.3g of the peak (allowed %.3g, noise %g)"
+                  % (row, e2, tol, case["noise"]), sig=sig)
